@@ -762,6 +762,9 @@ func (ev *Env) call(e *ECall) Value {
 		if fx.E.S.GhostByte[e.Fun] && fx.enc.quiet == 0 {
 			fx.enc.Assume(And(Le("0", gt), Le(gt, "255")))
 		}
+		if sf := fx.E.S.SpecFuncs[e.Fun]; sf != nil && fx.enc.quiet == 0 {
+			ev.specFuncApp(sf, gt, ts)
+		}
 		return IntV(gt, tInt)
 	}
 	ev.errf("unknown function %q in contract", e.Fun)
@@ -918,4 +921,64 @@ func (ev *Env) evalOrbit(od *Orbit, e *ECall) Value {
 		}
 	}
 	return IntV(t, tInt)
+}
+
+// specFuncApp is called for every application f(t...) of an opaque specification function outside quantifiers. In a
+// function that reveals f the definition is instantiated at the application; elsewhere the lemmas of f are (one level:
+// applications that appear inside a lemma instance are not instantiated again), and each lemma used is recorded so that
+// it becomes an obligation of the function under verification.
+func (ev *Env) specFuncApp(sf *Pred, gt Term, args []Term) {
+	fx := ev.fr.fx
+	if fx.sfSeen == nil {
+		fx.sfSeen = map[string]bool{}
+		fx.sfUsed = map[string]*SpecLemma{}
+	}
+	key := string(gt)
+	if fx.sfSeen[key] {
+		return
+	}
+	bindAll := func(params []string) *Env {
+		n := *ev
+		n.vars = make(map[string]Value, len(ev.vars)+len(params))
+		for k, v := range ev.vars {
+			n.vars[k] = v
+		}
+		n.bound = map[string]bool{}
+		for k := range ev.bound {
+			n.bound[k] = true
+		}
+		for i, name := range params {
+			n.vars[name] = IntV(args[i], tInt)
+			n.bound[name] = true
+		}
+		n.local = nil
+		return &n
+	}
+	revealed := fx.sfRevealAll
+	if ct := fx.E.S.Contracts[fx.root]; ct != nil && ct.Reveal[sf.Name] {
+		revealed = true
+	}
+	if revealed {
+		fx.sfSeen[key] = true
+		v := bindAll(sf.Params).eval(sf.Body)
+		if v.Kind != KInt {
+			ev.errf("specfunc %s: integer-valued body expected", sf.Name)
+		}
+		fx.enc.Assume(Eq(gt, v.T))
+		return
+	}
+	if fx.sfInLemma > 0 {
+		return
+	}
+	fx.sfSeen[key] = true
+	fx.sfInLemma++
+	defer func() { fx.sfInLemma-- }()
+	for _, lm := range fx.E.S.SpecFuncLemmas[sf.Name] {
+		t, err := bindAll(lm.Params).EvalBool(lm.C.E)
+		if err != nil {
+			ev.errf("lemma %s.%s: %v", sf.Name, lm.C.Label, err)
+		}
+		fx.enc.Assume(t)
+		fx.sfUsed[sf.Name+"."+lm.C.Label] = lm
+	}
 }
